@@ -1422,7 +1422,6 @@ def run(ctx):
                 "(extracted model vs implementation) + oracle evaluations on the implementation; a case is "
                 "distinct/non-trivial by its (law, input) signature")
     ctx.trusted_extra = ["T-const AST pass of props/C03.py (thresholds and branch skeleton of the modelled functions)",
-                         "scipy.linalg.logm (2-D logarithm) is external code: observed by the oracle, not modelled",
                          "mpmath 50-digit expm as the reference exponential of the oracle"]
     with ctx.timed('regenerate'):
         try:
